@@ -92,6 +92,12 @@ def gen_doc(rng):
         head.append("<META CHARSET=\"%s\" NAME=x>" % old.upper())
         decl += 1
     if rng.random() < 0.15:
+        # raw text that looks like a declaration for another encoding, in front of the real one: the prescan may take it,
+        # tree construction must correct it
+        head.insert(0, rng.choice(["<script>document.write('<meta charset=koi8-r>')</script>", "<style>/* <meta charset=\"shift_jis\"> */</style>",
+                                   "<script>var m = \"<meta http-equiv='content-type' content='text/html; charset=big5'>\";</script>",
+                                   "<title>&lt;meta charset=koi8-r&gt;</title>", "<!-- <meta charset=koi8-r> -->"]))
+    if rng.random() < 0.15:
         head.append(rng.choice(["<meta http-equiv=\"refresh\" content=\"30; url=x\">", "<meta content=\"IE=edge\" http-equiv=\"X-UA-Compatible\">",
                                 "<meta http-equiv=\"default-style\" content=\"a\">", "<meta http-equiv=\"content-language\" content=\"charset=koi8-r\">"]))
     if layout == "mixed":
